@@ -78,10 +78,19 @@ def extract(repo, o):
     o.defn("QN_Q", "Nat", str(int(ast.literal_eval(q))), "q_n: percentile of the pairwise distances")
     cmps = [n for n in _body_nodes(fn) if isinstance(n, ast.Compare)]
     small = _only([c for c in cmps if len(c.ops) == 1 and isinstance(c.ops[0], ast.LtE)], "`n <= k` in q_n")
-    mid = _only([c for c in cmps if len(c.ops) == 2 and all(isinstance(x, ast.Lt) for x in c.ops)], "`k < n < m` in q_n")
+    chains = [c for c in cmps if len(c.ops) == 2 and all(isinstance(x, ast.Lt) for x in c.ops)]
+    if chains:
+        mid = _only(chains, "`k < n < m` in q_n")
+        mid_lo, large = mid.left, mid.comparators[1]
+    else:
+        # `elif n < m` after `if n <= k`: the lower bound of the middle branch is the first test's k
+        singles = [c for c in cmps if len(c.ops) == 1 and isinstance(c.ops[0], ast.Lt) and isinstance(c.left, ast.Name)
+                   and isinstance(c.comparators[0], ast.Constant)]
+        mid = _only(singles, "`k < n < m` (or `n < m` after `n <= k`) in q_n")
+        mid_lo, large = small.comparators[0], mid.comparators[0]
     o.defn("QN_N_SMALL", "Nat", str(int(ast.literal_eval(small.comparators[0]))), "q_n: `n <= QN_N_SMALL` uses the constant scale")
-    o.defn("QN_N_MID_LO", "Nat", str(int(ast.literal_eval(mid.left))), "q_n: `QN_N_MID_LO < n < QN_N_LARGE` uses 1 + QN_NUM/n")
-    o.defn("QN_N_LARGE", "Nat", str(int(ast.literal_eval(mid.comparators[1]))))
+    o.defn("QN_N_MID_LO", "Nat", str(int(ast.literal_eval(mid_lo))), "q_n: `QN_N_MID_LO < n < QN_N_LARGE` uses 1 + QN_NUM/n")
+    o.defn("QN_N_LARGE", "Nat", str(int(ast.literal_eval(large))))
     fl = _float_consts(fn)
     if len(fl) != 3:
         raise ValueError(f"q_n: expected 3 float constants (small-sample scale, 1.0 + k/n, 1.0), found {len(fl)}")
